@@ -401,4 +401,17 @@ theorem sim_gfinish (cfg : ICfg) (f : Nat) {s : GState} (h : DoneOk cfg s) :
       rw [compile_ntasks]
       exact this
 
+theorem sim_gfinishW (cfg : ICfg) (f : Nat) {s : GState} (h : DoneOk cfg s) :
+    absS cfg (gfinishW cfg f s) = finishW (compile cfg) f (absS cfg s) := by
+  induction f generalizing s with
+  | zero => rfl
+  | succ f ih =>
+    unfold gfinishW finishW
+    rw [sim_allFin, sim_runnable]
+    split
+    · rfl
+    · split
+      · rfl
+      · rw [ih (doneOk_gexec _ h), sim_gexec cfg _ h]
+
 end MdModel.Once
